@@ -63,9 +63,11 @@ Local Open Scope N_scope.
 
 (* the side condition of [only_library_errors] is needed: the model does decline on some inputs *)
 Example model_declines :
-  decode BER None [12;2;200;200] = Err EUnmodelled          (* UTF8String with non-ASCII octets *)
-  /\ decode BER None [9;2;3;49] = Err EUnmodelled            (* REAL in decimal form *)
-  /\ is_library EUnmodelled = false.
+  decode BER None [9;2;3;49] = Err EUnmodelled               (* REAL in decimal form *)
+  /\ is_library EUnmodelled = false
+  (* UTF8String with non-ASCII octets: was declined, now answered (Model/Dec.v utf8_ok) *)
+  /\ decode BER None [12;2;200;200] = Err EUnicode
+  /\ decode BER None [12;2;195;169] = Ok (DV (TStr 12) (VOcts [195;169]), []).
 Proof. repeat split; vm_compute; reflexivity. Qed.
 
 (* one malformed input of each kind, each ending in a library error, under all three codecs where it applies *)
